@@ -3,7 +3,10 @@ use crate::report::{Meta, Out, Violation};
 use serde_json::Value;
 
 pub mod c01;
+pub mod c02;
+pub mod c05;
 pub mod c08;
+pub mod c17;
 
 pub struct Prop {
     pub id: &'static str,
@@ -31,7 +34,10 @@ pub fn all_workers(_tier: &str) -> usize {
 pub fn get(id: &str) -> Option<Prop> {
     match id {
         "C01" => Some(c01::prop()),
+        "C02" => Some(c02::prop()),
+        "C05" => Some(c05::prop()),
         "C08" => Some(c08::prop()),
+        "C17" => Some(c17::prop()),
         _ => None,
     }
 }
